@@ -202,6 +202,8 @@ def main():
             print("worktree failed", file=sys.stderr)
             continue
         rec = dict(key=key, file=fn, function=q, line=node.lineno, kind=kind, original=orig[:120], mutated=text[:120], properties=pids, results={})
+        if only is not None:
+            rec["suite"] = "passes"  # phase 1 (tools/automut_suite_filter.py) established it
         if key in done and done[key].get("suite"):
             rec["suite"] = done[key]["suite"]
             rec["first_verdict"] = done[key].get("first_verdict") or done[key].get("verdict")
